@@ -98,6 +98,12 @@ def main(argv):
         return mod.replay(ctx, json.load(open(a.replay)))
     out = Outcome()
     try:
+        if getattr(mod, 'ENGINE_M', True):
+            from checks import selftest
+            st = selftest.ensure(ctx)
+            out.coverage['translator_validation'] = {'cases': st['cases'], 'mismatches': len(st['mismatches'])}
+            if st['mismatches']:
+                raise Inconclusive('engine M disagrees with the natively compiled code on the translator-validation corpus: ' + ' || '.join(st['mismatches'])[:1200])
         mod.run(ctx, out)
     except Inconclusive as e:
         out.inconclusive.append(str(e))
